@@ -185,11 +185,13 @@ class Pipe:
 
         for cb, is_interest in self._event_callbacks[:]:
             keep_calling = cb(event)
-            if not keep_calling:
-                if self._event_callbacks is False:
-                    # All interest was just lost during the callback
-                    return
+            if self._event_callbacks is False:
+                # All interest was just lost during the callback -- also one
+                # that asks to be kept, eg. when the transport reports an
+                # error for the peer while the event's message is being sent
+                return
 
+            if not keep_calling:
                 self._event_callbacks.remove((cb, is_interest))
 
         if not self._any_interest():
